@@ -964,8 +964,10 @@ def set_transit_compartments(model: Model, n: int, keep_depot: bool = True):
             nremove -= 1
 
         if n == 0:
-            dose = cs.dosing_compartments[0].doses[0]
-            cb.set_dose(destination, dose)
+            old_dosing = cs.dosing_compartments[0]
+            dose = old_dosing.doses[0]
+            destination = cb.set_dose(destination, dose)
+            cb.set_bioavailability(destination, old_dosing.bioavailability)
 
         statements = (
             model.statements.before_odes + CompartmentalSystem(cb) + model.statements.after_odes
